@@ -83,3 +83,35 @@ def param(env, index):
     a = env.func.node.args
     names = [p.arg for p in a.posonlyargs + a.args + a.kwonlyargs]
     return env.lookup(names[index])
+
+
+def adopt_unknown_fields(it, obj, ci, init_kwargs, declared):
+    """Fields the real __init__ creates that the sidecar's symbolic object does not know about (code added since the contract was
+    written): run the real __init__ once with concrete arguments and copy them over - havoced when the class mutates them outside
+    __init__ (an arbitrary reachable state), kept at their initial value otherwise."""
+    import ast as _ast
+    from .values import ClassV
+    saved = (it.path.pc[:], dict(it.path.known))
+    try:
+        fresh = it.call_value(ClassV(ci), [], dict(init_kwargs))
+    except Exception:
+        return []
+    mutated = set()
+    for name, fi in ci.methods.items():
+        if name == "__init__":
+            continue
+        for n in _ast.walk(fi.node):
+            if isinstance(n, _ast.Attribute) and isinstance(n.ctx, _ast.Store) and isinstance(n.value, _ast.Name) and n.value.id == "self":
+                mutated.add(n.attr)
+    added = []
+    for f, v in fresh.fields.items():
+        if f in obj.fields or f in declared:
+            continue
+        if f in mutated:
+            try:
+                v = it.havoc_value(v, f)
+            except Exception:
+                pass
+        obj.fields[f] = v
+        added.append(f)
+    return added
